@@ -17,6 +17,7 @@ import (
 	"crypto/x509/pkix"
 	"encoding/asn1"
 	"encoding/pem"
+	"encoding/xml"
 	"fmt"
 	"io"
 	"math/big"
@@ -155,7 +156,39 @@ func c19HeaderValue(v int) string {
 	if v >= 2000 {
 		return fmt.Sprintf("Bearer tok%d", v-2000)
 	}
+	switch v {
+	case c19VCtXML:
+		return "text/xml; charset=utf-8"
+	case c19VCtJSON:
+		return header.JsonContentType
+	}
 	return fmt.Sprintf("v%d", v)
+}
+
+// round 7: content types that pick the marshaller of SetBody(struct) (Scope.vCtXml / vCtJson) and
+// the first body id that is a value to marshal (Scope.marshalFrom).
+const (
+	c19VCtXML      = 903
+	c19VCtJSON     = 904
+	c19MarshalFrom = 10
+)
+
+type c19MarshalUser struct {
+	XMLName xml.Name `xml:"user" json:"-"`
+	Name    string   `xml:"name" json:"name"`
+}
+
+// c19MarshalBody gives body id b (>= c19MarshalFrom) to SetBody as a struct, a pointer or a slice.
+func c19MarshalBody(q *Request, b, variant int) {
+	u := c19MarshalUser{Name: fmt.Sprintf("QQm%d", b)}
+	switch variant % 3 {
+	case 0:
+		q.SetBody(&u)
+	case 1:
+		q.SetBody(u)
+	default:
+		q.SetBody([]c19MarshalUser{u})
+	}
 }
 
 func c19HeaderValueID(s string) int {
@@ -168,6 +201,10 @@ func c19HeaderValueID(s string) int {
 		return 901
 	case s == header.FormContentType:
 		return 902
+	case s == "text/xml; charset=utf-8":
+		return c19VCtXML
+	case s == header.JsonContentType:
+		return c19VCtJSON
 	case strings.HasPrefix(s, "Bearer tok"):
 		return 2000 + c19Num(s[len("Bearer tok"):])
 	case strings.HasPrefix(s, "v"):
@@ -252,7 +289,27 @@ func c19CookieID(name string) int {
 	return 99995
 }
 
-func c19CookieName(id int) string { return fmt.Sprintf("ck%d", id) }
+func c19CookieName(id int) string { return fmt.Sprintf("ck%d", id%1000) }
+
+// c19Cookie builds the cookie with model id `id`: ids below 1000 are a NAME with the value "1";
+// id = 1000*v + n (round 7) is the name of n with the DIFFERENT value "v<v>" — the same cookie
+// name set again (a refreshed session id). To the model both are different opaque ids: Go's
+// SetCommonCookies / SetCookies append, they never update a cookie of the same name.
+func c19Cookie(id int) *http.Cookie {
+	if id >= 1000 {
+		return &http.Cookie{Name: c19CookieName(id), Value: fmt.Sprintf("v%d", id/1000)}
+	}
+	return &http.Cookie{Name: c19CookieName(id), Value: "1"}
+}
+
+// c19CookieWireID is the model id of a cookie as it is sent / stored: name and value.
+func c19CookieWireID(name, value string) int {
+	id := c19CookieID(name)
+	if strings.HasPrefix(name, "ck") && strings.HasPrefix(value, "v") && len(value) > 1 {
+		id += 1000 * c19Num(value[1:])
+	}
+	return id
+}
 
 // ------------------------------------------------------------------ closures with ids
 
@@ -683,7 +740,7 @@ func (w *c19World) probe(c *Client) string {
 	put(3, vals(c.FormData, "QQf", "QQg"))
 	var ck []int
 	for _, x := range c.Cookies {
-		ck = append(ck, c19CookieID(x.Name))
+		ck = append(ck, c19CookieWireID(x.Name, x.Value))
 	}
 	list(4, ck)
 	list(5, w.probeIDs(func() {
@@ -814,13 +871,24 @@ func (w *c19World) canonReq(s c19Seen) string {
 	}
 	var cookies []int
 	for _, ck := range (&http.Request{Header: s.header}).Cookies() {
-		cookies = append(cookies, c19CookieID(ck.Name))
+		cookies = append(cookies, c19CookieWireID(ck.Name, ck.Value))
 	}
 	body := "n"
 	switch {
 	case s.body == "":
 	case strings.HasPrefix(s.body, "QQbody"):
 		body = "r" + strconv.Itoa(c19Num(s.body[len("QQbody"):]))
+	case strings.Contains(s.body, "QQm"):
+		// a marshalled value: {"name":"QQm12"} / [{"name":"QQm12"}] (JSON), <user><name>QQm12</name></user> (XML)
+		t := strings.TrimSuffix(strings.TrimPrefix(s.body, "["), "]")
+		switch {
+		case strings.HasPrefix(t, `{"name":"QQm`) && strings.HasSuffix(t, `"}`):
+			body = "j" + strconv.Itoa(c19Num(t[len(`{"name":"QQm`):len(t)-2]))
+		case strings.HasPrefix(t, "<user><name>QQm") && strings.HasSuffix(t, "</name></user>"):
+			body = "x" + strconv.Itoa(c19Num(t[len("<user><name>QQm"):len(t)-len("</name></user>")]))
+		default:
+			body = "?" + s.body
+		}
 	default:
 		body = "f" + c19Kvs(c19ParsePairs(s.body, "QQf", "QQg"))
 	}
